@@ -45,10 +45,12 @@ BARE = {
 
 ARR_SPECS = [("arr", "a b"), ("arr", "*v a"), ("arr", "#a"), ("arr", "a"), ("arr", "a a+1"),
              ("union", [("arr", "a 3"), ("arr", "a b")]), ("union", [("arr", "a"), ("py", "int")]),
-             ("tup", [("arr", "a"), ("arr", "a b")]), ("arr", "*#v"), ("union", [("arr", "c+1"), ("arr", "a")])]
+             ("tup", [("arr", "a"), ("arr", "a b")]), ("arr", "*#v"), ("union", [("arr", "c+1"), ("arr", "a")]),
+             ("union604", [("arr", "a 3"), ("arr", "a b")]), ("union604", [("arr", "a"), ("py", "int")])]
 PY_SPECS = [("py", "int"), ("py", "str"), ("py", "float"), ("union", [("py", "float"), ("py", "str")]),
             ("tup", [("py", "int"), ("py", "int")]),
-            ("union", [("py", "int"), ("py", "str")]), ("any",)]
+            ("union", [("py", "int"), ("py", "str")]), ("any",),
+            ("union604", [("py", "int"), ("py", "str")]), ("union604", [("py", "float"), ("tup", [("py", "int"), ("py", "int")])])]
 PYVALS = {"int": 1, "str": "s", "pair": (1, 2), "badpair": (1, "s"), "float": 2.5}
 PRIORS = [[], ["a"], ["a b"], ["*v"], ["*#v"]]
 
@@ -98,7 +100,7 @@ BOUNDS = dict(skeletons="%d tree skeletons over tuples/lists/dicts/None/namedtup
               prior="0..1 prior accepted array checks", nesting="PyTree[L] vs PyTree[PyTree[L]] compared on every instance")
 STUBS = c01.STUBS
 ASSUMPTIONS = ["tree skeleton, leaf type and non-array leaf values are selectors (enumerative residue); jax tree_flatten (C++) runs concretely",
-               "unions inside leaf types are typing.Union checked by the vendored typeguard in declaration order"]
+               "unions inside leaf types (typing.Union and `X | Y`) are checked by the vendored typeguard in declaration order"]
 REQUIRED_LABELS = {"verdict", "post-bindings", "unchanged", "nesting-verdict", "nesting-bindings", "bare", "none-accepted"}
 REQUIRED_WITNESS = {"ACC", "REJ", "ERR"}
 BUDGET_S = {"quick": 200, "thorough": 1800}
@@ -127,7 +129,7 @@ def observe(tree, ann):
 def first_dims(spec):
     if spec[0] == "arr":
         return spec[1]
-    if spec[0] in ("union", "tup"):
+    if spec[0] in ("union", "union604", "tup"):
         for s in spec[1]:
             d = first_dims(s)
             if d is not None:
@@ -251,8 +253,8 @@ def _logging_run_priors(inst, V, args):
 
 def _tuplify(s):
     if isinstance(s, (list, tuple)):
-        if s and s[0] in ("arr", "py", "any", "tup", "union", "tree"):
-            if s[0] in ("tup", "union"):
+        if s and s[0] in ("arr", "py", "any", "tup", "union", "union604", "tree"):
+            if s[0] in ("tup", "union", "union604"):
                 return (s[0], [_tuplify(x) for x in s[1]])
             if s[0] == "tree":
                 return ("tree", _tuplify(s[1]))
